@@ -7,12 +7,14 @@
    exception (one wrapping per enclosing filter: the nested search of an enclosing has-filter ends in it and is
    wrapped again by C03_raise at the outer level, through C04_has_is_first_success's fin_of).
    C03_machine: the iterator delivers exactly this (complete or sound prefix + budget exception).
-   UNDISCHARGED: "f is called once per candidate, in candidate order" as a statement about the call log is read
-   off `sem` (one SCall per VPred application) and compared event by event by the correspondence; no separate
-   theorem states it. *)
+   C03_called_once_per_candidate_in_order: the event stream of q[f] r is the stream of q with every result c' --
+   in the order q delivers them -- replaced by exactly one call of f on c', then the attempt of the filter
+   step, then (f's answer truthy) the rest of the path from the unchanged c'; an exception of f ends the
+   stream there.  It is an instance of C03_stream_is_compositional (proofs/SemApp.v): the stream of q ++ s is the
+   stream of q with every result replaced by the stream of s from it. *)
 From Coq Require Import List ZArith String Bool PArith.
 From TP Require Import Json PyPrim Machine Api Spec SpecHas.
-From TP.proofs Require Import RefineBase Refine NextLayer Iterate WfRun Query SpecLemmas Top HasScan HasLoop HasRefine ApiTop HasLemmas.
+From TP.proofs Require Import RefineBase Refine NextLayer Iterate WfRun Query SpecLemmas Top HasScan HasLoop HasRefine ApiTop HasLemmas SpecWork SemApp.
 Import ListNotations.
 
 Theorem C03_filter : forall (sev : @hpred json -> jctx -> res json * list sevent) q h c,
@@ -48,3 +50,27 @@ Theorem C03_machine : forall B H depth (src : @source json) (vp : list (vertex (
       sound_prefix (@hpred json) (@eval_h json jshape (fun d => d) B H depth) (seval_h depth) src vp tr d.
 Proof. exact api_iterator. Qed.
 Print Assumptions C03_machine.
+
+Theorem C03_stream_is_compositional :
+  forall (P : Type) (sev : P -> jctx -> res json * list sevent) (q s : list (vertex P)),
+    ends_rec P q = false -> quiet_sev P sev q ->
+    forall i pm c, sem P sev i (q ++ s) pm c = bindr (sem P sev i q pm c) (fun c' => sem P sev (i + List.length q) s pm c').
+Proof. exact sem_app. Qed.
+Print Assumptions C03_stream_is_compositional.
+
+Theorem C03_called_once_per_candidate_in_order : forall n q tag f r i pm c,
+  ends_rec (@hpred json) q = false ->
+  sem (@hpred json) (seval_h (S n)) i (q ++ VPred (HUser tag f) :: r) pm c =
+  bindr (sem (@hpred json) (seval_h (S n)) i q pm c)
+        (fun c' =>
+           match f c' with
+           | Ok v =>
+               rseq ([SCall tag c'], None)
+                    (if truthy v
+                     then rseq (rev1 (STrace c' (Some c') (S (i + List.length q)) pm))
+                               (sem (@hpred json) (seval_h (S n)) (S (i + List.length q)) r pm c')
+                     else rev1 (STrace c' None (S (i + List.length q)) pm))
+           | Exn e => ([SCall tag c'], Some (ETraversing e))
+           end).
+Proof. exact user_filter_once_per_candidate. Qed.
+Print Assumptions C03_called_once_per_candidate_in_order.
